@@ -6,9 +6,8 @@ try_passes.py, plus
   * --chain      generator feature "chain" (shapes the chain passes care about)
   * jobs that kill the harness (fatal stack overflow on a reference cycle) are checked too:
     the model must answer OutOfFuel for them, and must not answer OutOfFuel for any other job
-  * cases whose Go result depends on map order (flag `map_order_sensitive` of the model) are
-    counted apart and not compared; likewise the cases in which a later pass runs on a result
-    where an earlier pass left shared pointers (flag `alias_sensitive`).
+  * cases in which a later pass runs on a result where an earlier pass left shared pointers
+    (flag `alias_sensitive` of Model/SpecChain.v) are counted apart and not compared.
 
   tools/try_chain.py --kinds disjunction_to_type --n 500 --seed 3 --depth 4 --chain
   tools/try_chain.py --seq go --prefix --n 500 --seed 1 --chain
@@ -121,14 +120,11 @@ try:
             results[i] = {"status": "OK", "input": x["input"], "passes": y["passes"], "outcome": "OutOfFuel",
                           "after": x["input"], "fatal": True}
     ev = passlib.eval_cases(ctx, "try", results,
-                            [("MM", "case_mismatch"), ("UM", "case_unmodelled"), ("MO", "case_map_order"), ("AL", "case_alias")], imports="Model.SpecChain")
-    mo = set(ev["MO"])
-    al = set(ev["AL"]) - mo
-    bad = [i for i in ev["MM"] if i not in mo and i not in al]
-    print("cases=%d unmodelled=%d fatal=%d map_order_sensitive=%d (of which disagree: %d) "
-          "alias_sensitive=%d (of which disagree: %d) MISMATCH=%d" % (
-              len(jobs), len(ev["UM"]), len(fatal), len(mo), len([i for i in ev["MM"] if i in mo]),
-              len(al), len([i for i in ev["MM"] if i in al]), len(bad)))
+                            [("MM", "case_mismatch"), ("UM", "case_unmodelled"), ("AL", "case_alias")], imports="Model.SpecChain")
+    al = set(ev["AL"])
+    bad = [i for i in ev["MM"] if i not in al]
+    print("cases=%d unmodelled=%d fatal=%d alias_sensitive=%d (of which disagree: %d) MISMATCH=%d" % (
+        len(jobs), len(ev["UM"]), len(fatal), len(al), len([i for i in ev["MM"] if i in al]), len(bad)))
     bad = sorted(bad, key=lambda i: len(json.dumps(jobs[i])))
     if a.dump:
         with open(a.dump, "w") as f:
